@@ -54,6 +54,10 @@ func (s *ServerTLS) Start(ctx context.Context) (err error) {
 		return ErrServerAlreadyStarted
 	}
 
+	// Shutdown releases the worker pool, so reopen it in case the server is
+	// started again.  This does nothing if the pool is open.
+	s.workerPool.Reboot()
+
 	log.Info("[%s]: Starting the server", s.name)
 
 	ctx = ContextWithServerInfo(ctx, &ServerInfo{
